@@ -139,7 +139,10 @@ class Builder:
                 obj._k, obj._sid = self.k, self._sim_id(r)
             self._reg(r, obj)
             for kk, vv in v:
-                dict.__setitem__(obj, self.value(kk), self.value(vv))
+                if t == 'simdict':
+                    dict.__setitem__(obj, self.value(kk), self.value(vv))   # no collaborator point
+                else:
+                    obj[self.value(kk)] = self.value(vv)    # (OrderedDict keeps its own order list)
             return obj
         if t in ('list', 'mylist', 'slotlist', 'simlist'):
             cls = {'list': list, 'mylist': collab.MyList, 'slotlist': collab.SlotList,
@@ -247,6 +250,9 @@ class Builder:
             from . import canon
             G, k = self.G, self.k
             me = k.cur_task
+            depth_key = ('_nest', me, probe.pid)
+            if d.get('max_depth') is not None and self.__dict__.get(depth_key, 0) >= d['max_depth']:
+                return args[0]
             k.event(probe.site + '.entry', 'nested-entry',
                     {'pid': probe.pid, 'counts': sorted([[list(key), n] for key, n in k.counts.items()
                                                          if key[0] == me])})
@@ -255,16 +261,21 @@ class Builder:
             kw = {}
             if 'default' in d:
                 kw['default'] = self.value(d['default'])
+            self.__dict__[depth_key] = self.__dict__.get(depth_key, 0) + 1
             try:
                 res = ('ok', G.glom(tgt, spec, **kw))
             except Exception as e:
                 res = ('exc', e)
+            finally:
+                self.__dict__[depth_key] -= 1
             k.event(probe.site + '.inner', 'nested-outcome', canon.outcome(res, self.idmap))
             if self.on_nested:
                 self.on_nested(d, res)
-            if res[0] == 'ok':
+            if res[0] == 'ok' and d.get('handle') != 'passthrough':
                 return res[1]
             h = d.get('handle', 'raise')
+            if h == 'passthrough':
+                return args[0]
             if h == 'raise':
                 raise res[1]
             if h == 'rewrap':
@@ -502,6 +513,11 @@ class Builder:
             return G.Val(G.STOP)
         if kind == 'custom':
             return self.custom_spec(r)
+        if kind == 'compose':
+            # ['compose', first callable recipe, second callable recipe] -> x -> second(first(x))
+            f1, f2 = self.callable_(r[1]), self.callable_(r[2])
+            return NamedFn(f'{getattr(f2, "__name__", "f")}_after_{getattr(f1, "__name__", "g")}',
+                           lambda x: f2(f1(x)))
         raise ValueError(f'unknown spec recipe {r!r}')
 
     def exc_classes(self, names):
